@@ -3,7 +3,9 @@
 # confirms + runs the checks (try_mutant.sh), then stores patch, demo, README and meta.json under /verif/seeded/<name>/
 SRC="$1"; NAME="$2"; PROP="$3"; NEEDS="$4"; shift 4
 D=/verif/seeded/$NAME; mkdir -p "$D"
-cp "$SRC/patch.diff" "$SRC/demo_test.go" "$D/"; [ -f "$SRC/README.md" ] && cp "$SRC/README.md" "$D/README.md"
+if [ "$(realpath "$SRC")" != "$(realpath "$D")" ]; then
+  cp "$SRC/patch.diff" "$SRC/demo_test.go" "$D/"; [ -f "$SRC/README.md" ] && cp "$SRC/README.md" "$D/README.md"
+fi
 OUT=$(/verif/checks/try_mutant.sh "$SRC" "$PROP" "$@" 2>&1)
 echo "$OUT"
 python3 - "$D" "$PROP" "$NEEDS" "$OUT" "$*" <<'PY'
